@@ -28,6 +28,18 @@ CHECKS = {
 
 NOT_APPLICABLE = []
 
+CHECKS['C12'] = (
+    'bounded exploration of real engine runs on minidb: a first run with '
+    'symbolic outcomes until the workflow is ERROR, then rerun / skip of a '
+    'solver-chosen failed task with symbolic reset flag and new outcome; '
+    'invariants after every delivery and the reference semantics at the end',
+    'After rerun the task\'s workflow, every enclosing workflow and parent '
+    'task are RUNNING, exactly one new action runs and only its result is '
+    'accepted, and the run ends as the language prescribes for the new '
+    'outcome; skip gives SKIPPED without running the action and follows '
+    'on-skip, else on-success, never on-complete.',
+    '§3 C12')
+
 CHECKS['C11'] = (
     'bounded exploration of real engine runs on minidb in which the stop '
     'request (state, position, optionally after a pause, on the root or on a '
